@@ -488,9 +488,17 @@ class BigInteger(Base):
                 version with which the object will be encoded. Optional,
                 defaults to KMIP 1.0.
         """
-        # Convert the value to binary and pad it as needed.
+        # Convert the value to binary and pad it as needed. The width is the
+        # smallest multiple of 64 bits that holds the value in two's
+        # complement: for a negative value that is decided by abs(value) - 1
+        # (so that -2**63 takes 8 bytes, not 16).
         binary = "{0:b}".format(abs(self.value))
-        binary = ("0" * (64 - (len(binary) % 64))) + binary
+        if self.value < 0:
+            sizing = "{0:b}".format(abs(self.value) - 1)
+        else:
+            sizing = binary
+        width = len(sizing) + (64 - (len(sizing) % 64))
+        binary = ("0" * (width - len(binary))) + binary
 
         # If the value is negative, convert via two's complement.
         if self.value < 0:
